@@ -308,9 +308,10 @@ def run(tier):
         "per_method_model": {m: int(a.n.get("mod/" + m, 0)) for m in gen.METHODS},
         "model_disagrees_with_tree_and_release": int(a.n.get("model_disagrees_with_both", 0)),
         "compared_with_pure_python_eksblowfish": int(a.n.get("compared_with_pure_bcrypt", 0)),
-        "yescrypt_core_other_instruction_sets": {k: int(a.n.get("isa/" + k, 0)) for k in ISA},
+        "hashes_compared_on_other_builds": {k: int(a.n.get("isa/" + k, 0)) for k in ISA},
         "flavours": ["opt (-O2)", "asan", "sys (libxcrypt 4.4.33 /lib/x86_64-linux-gnu/libcrypt.so.1)",
-                     "opt with alg-yescrypt-opt.c built -mavx2", "opt with alg-yescrypt-opt.c built -mno-sse2 (portable C body)"],
+                     "opt with alg-yescrypt-opt.c built -mavx2", "opt with alg-yescrypt-opt.c built -mno-sse2 (portable C body)",
+                     "-O2 -DNDEBUG (whole library)"],
     }
     req = {"release/" + m: a.n.get("rel/" + m, 0) for m in gen.METHODS}
     req.update({"model/" + m: a.n.get("mod/" + m, 0) for m in gen.METHODS})
